@@ -50,6 +50,14 @@ PROPS["C16"] = {
     "explanation": "Theorems over the abstract Set model for every fuel and state: a second lookup outside dev mode returns the identical template and only touches the cache; dev mode never calls Cache.Get/Put; Parse never caches (neither itself nor what it pulls in); extensions are probed in configured order, first existing file wins, all are probed on a miss; frame_all: which calls any lookup may make, by mode and caching flag. Tie B: call traces (Exists/Open/Get/Put in order), identity classes of returned templates and rendered markers of the real Set vs the model on the same histories.",
 }
 
+PROPS["C20"] = {
+    "lean_modules": ["C20"],
+    "rule": "templates assembled from a grammar-covering snippet list (every production; optional parts present and absent: omitted slice bounds, '_', unary operators, try with/without catch and catch variable, include with/without context, return, yield content, block content) and from the random source generator; each is parsed by the real parser, its tree is rebuilt by reflection over node.go's struct layout and walked by the real utils.Walk and by the model's walk over the regenerated visit table. Non-trivial = source longer than 10 bytes.",
+    "trusted_base": COMMON_TB + ["factgen's reading of node.go struct declarations and of utils/visitor.go helper bodies (shape flags fail the check when a construct is not understood)", "the nil-ability table of child slots is hand-written from parse.go and validated on every run (wf of every tree the real parser produced)"],
+    "assumptions": ["a visitor that descends with VisitorContext.Visit; the callback is not invoked for the ListNode of a block body (list nodes are compared 'at most once')"],
+    "explanation": "Generic theorem walk_complete (for any schema and visit table with covers = true, walking a schema-conforming tree never panics and visits exactly its nodes, each once, in order) + jet_visitor_covers : covers jetSchema Facts.visitArms = true by kernel evaluation over the tables regenerated from /repo on this run.",
+}
+
 # Texts for MANIFEST.json (gen_manifest.py)
 MANIFEST_TEXT = {
     "C15": {
@@ -101,5 +109,10 @@ MANIFEST_TEXT = {
         "level": "Machine-checked Lean 4 theorems (induction on fuel over the mutually recursive lookup/load/header functions of an abstract Set model): identical-and-silent second lookup, dev mode never uses the cache, Parse never caches, extension order, and a frame theorem bounding the loader/cache calls of every lookup by mode and caching flag. Tied to /repo by differential execution of operation histories with a recording Loader and Cache, comparing call traces, template identity classes and rendered output after edits.",
         "note": "'Failures are never cached' is covered by the frame theorem only in the form 'Put happens exactly on the success path' plus correspondence (failed lookups retried after a repair are part of the histories).",
         "technique": "Lean 4 proof (invariant by induction on fuel) about a hand-written abstract model + differential correspondence over operation histories + direct oracle",
+    },
+    "C20": {
+        "level": "Machine-checked Lean 4: a generic completeness theorem for table-driven visitors (induction on fuel, for all trees conforming to a schema) instantiated, by kernel evaluation (decide), with the node schema and visit table that factgen regenerates from node.go and utils/visitor.go on every run; a change to the visitor or to the node structs changes the table the theorem is checked against. Tie B: the real Walk and the model walk are compared on trees the real parser produced.",
+        "note": "Trusted: Lean kernel (jet_visitor_covers depends on no axioms); factgen; the nil-ability table (validated against parser output each run).",
+        "technique": "Lean 4 proof (generic theorem + decide over regenerated facts) + differential correspondence + direct oracle (every node exactly once, no panic, terminates)",
     },
 }
